@@ -69,3 +69,11 @@ func (s *Snapshot) IterationsStarted() uint64 {
 func (s *Snapshot) FailedIterationsRate() uint64 {
 	return s.FailedIterationDurations.Count * 100 / s.Iterations()
 }
+
+// FailedIterationsRateExceeds reports whether the share of failed iterations among all
+// iterations is strictly greater than the given percentage.
+//
+// The comparison is exact: it doesn't round the share down to a whole percentage.
+func (s *Snapshot) FailedIterationsRateExceeds(percentage uint64) bool {
+	return s.FailedIterationDurations.Count*100 > percentage*s.Iterations()
+}
